@@ -1,0 +1,12 @@
+//go:build verif
+
+// Contracts for govc (contract-based deductive verification); comments only.
+package podgroup
+
+// C06: "never evict pods of non-preemptible workloads". A workload is preemptible iff it says so
+// explicitly, or says nothing and its priority is below the non-preemptible threshold (100).
+//@ func CalculatePreemptibility
+//@   props C06
+//@   pure
+//@   ensures result == ite(preemptibility == v2alpha2.Preemptible, v2alpha2.Preemptible, ite(preemptibility == v2alpha2.NonPreemptible, v2alpha2.NonPreemptible, ite(priority < 100, v2alpha2.Preemptible, v2alpha2.NonPreemptible)))
+//@ end
